@@ -110,6 +110,12 @@ def explore(S, docs=None, want=('C01', 'C04', 'C05')):
                 ctx.must_hold(False, 'C05:printer-panic', lambda mdl: dict(describe(mdl), panic=p.msg))
                 return
             S.absorb(m)
+            if 'C12' in want:
+                offs = D.indent_nest_offsets(d)
+                ctx.must_hold(b_and(*[i_eq(o, cfg.fields[0], 64) for o in offs]), 'C12:nest-offset-differs-from-indent-unit',
+                              lambda mdl: dict(describe(mdl), offsets=[(model_int(mdl, o) if is_sym(o) else o) for o in offs]))
+                if offs:
+                    ctx.witness('nested')
             expected = strip_layout(src)
             for mode, at in atoms_modes(d).items():
                 got = ''
